@@ -412,7 +412,7 @@ def c11(ctx):
     syncj = librt_job(ctx, 'sync', [H(ctx, 'C11', 'ndgo_h.go'), H(ctx, 'C11', 'sync_h.go')], unwind=30, deadline_s=900 if q else 3000,
                       replay=slice_replay(extra_roots=sync_roots, inpkg='librt_sync_inpkg.go', gosync=True),
                       only=['H_sync_mutex2', 'H_sync_mutex_relock', 'H_sync_mutex3', 'H_sync_rwmutex', 'H_sync_rwmutex_2w', 'H_sync_waitgroup',
-                            'H_sync_waitgroup_2wait', 'H_sync_once', 'H_sync_cond_signal', 'H_sync_cond_broadcast1'] if q else None,
+                            'H_sync_waitgroup_2wait', 'H_sync_once', 'H_sync_cond_signal', 'H_sync_cond_broadcast1', 'H_sync_trylock', 'H_sync_rw_try', 'H_sync_waitgroup_reuse'] if q else None,
                       extra=['--real-sync', '--spurious', '0', '--sched-steps', '400', '--preempt', '2'])  # preemption bound 2 in both tiers; thorough adds the two-waiter Cond configurations
     return [librt_job(ctx, 'sema', [H(ctx, 'C11', 'ndgo_h.go'), H(ctx, 'C11', 'sema_h.go')], unwind=30, deadline_s=900 if q else 3000, extra=ex), value, syncj]
 
